@@ -253,5 +253,7 @@ def _error_argument_count(funcdef, actual_count):
         before = 'exactly '
     else:
         before = 'from %s to ' % (len(params) - default_arguments)
+    # A lambda has no name (parso raises AttributeError for it).
+    name = '<lambda>' if funcdef.type == 'lambdef' else funcdef.name
     return ('TypeError: %s() takes %s%s arguments (%s given).'
-            % (funcdef.name, before, len(params), actual_count))
+            % (name, before, len(params), actual_count))
